@@ -421,13 +421,13 @@ package ro
 
 //@ func FromChannel$1$1
 //@   note the reader goroutine of FromChannel
-//@   props C17 C08
+//@   props C17 C08 C03 C14
 //@   binds in done destination ctx
 //@   calls CompleteWithContext NextWithContext
 //@   params -
 //@   note every wait of the reader is one blocking select over the input channel and the teardown's done channel: it is never parked on the input alone, nor does it poll
 //@   track destination.* loop.* chselect chpoll chrecv.ANY
-//@   ensures [ends-by-completion-or-done|C17,C14] trace(loop.L0, chselect(in, done)) || trace(loop.L0, chselect(in, done), destination.CompleteWithContext(ctx))
+//@   ensures [ends-by-completion-or-done|C17,C14,C03] trace(loop.L0, chselect(in, done)) || trace(loop.L0, chselect(in, done), destination.CompleteWithContext(ctx))
 
 //@ loop FromChannel$1$1#0
 //@   iteration emits chselect(in, done), destination.NextWithContext(ctx, received)
@@ -966,7 +966,7 @@ package ro
 //@   calls ErrorWithContext Lock Unlock Unsubscribe
 //@   params ctx err
 //@   track destination.* subscriptions.*
-//@   ensures [error-ends-the-output-and-releases-the-others|C05,C09] trace(destination.ErrorWithContext(ctx, err), subscriptions.Unsubscribe())
+//@   ensures [error-ends-the-output-and-releases-the-others|C05,C09,C07,C14] trace(destination.ErrorWithContext(ctx, err), subscriptions.Unsubscribe())
 
 //@ operator Serialize
 //@   props C02 C08 C04
@@ -1214,16 +1214,18 @@ package ro
 //@ func IntervalWithInitial$1$1
 //@   note the ticking goroutine of IntervalWithInitial: every value follows a tick of the initial timer or of the ticker; at most one value per tick; completes when told to stop
 //@   props C16 C09
-//@   binds destination ctx
+//@   binds destination ctx timer ticker
 //@   calls CompleteWithContext Done NextWithContext Reset
 //@   params -
 //@   track destination.* loop.* chselect chpoll chrecv.ANY ctx.Done
+//@   requires timer.C != ticker.C
 //@   ensures [completes-when-told-to-stop|C16] trace(loop.L0, ctx.Done(), chselect, destination.CompleteWithContext(ctx))
 
 //@ loop IntervalWithInitial$1$1#0
 //@   iteration ensures count(chselect) == 1 && count(chpoll) == 0 && count(chrecv.ANY) == 0 && count(destination.NextWithContext) <= 1 && before(chselect, destination.NextWithContext)
 //@   iteration ensures called(destination.NextWithContext) ==> arg(destination.NextWithContext, 0) == ctx && arg(destination.NextWithContext, 1) == value - 1
 //@   iteration ensures count(ctx.Done) == 1 && watches(chselect, done) && watches(chselect, res(ctx.Done))
+//@   iteration ensures chosen(chselect, timer.C) && initial == 0 ==> count(destination.NextWithContext) == 0
 
 // math lifts: each value is replaced by what the standard function returns for it (floating point itself is not reasoned about)
 
@@ -1415,7 +1417,7 @@ package ro
 
 //@ func WindowWhen$1$1$2
 //@   props C05 C20
-//@   binds value muEmit window destination
+//@   binds ctx value muEmit window destination
 //@   calls Lock NextWithContext Unlock
 //@   params ctx value
 //@   maypanic
